@@ -711,7 +711,8 @@ def verify_directory_hash_subcommand(
         for hash_list in existing_history.hash_lists:
             if hash_list.generation_number > generation:
                 # add each hash entry's format to the list of formats
-                if len(hash_list.process_info.root_media_hash.hash_entries) > 0:
+                # (generations written without directory hashes, e.g. with -n or -sf, have no root hash)
+                if hash_list.process_info.root_media_hash is not None:
                     for entry in hash_list.process_info.root_media_hash.hash_entries:
                         entry_hash_format = entry.hash_format
                         # do not permit duplicate entries in the list
@@ -853,6 +854,8 @@ def verify_directory_hash_subcommand(
         # compare root hashes, works differently
         if folder_path == root_path:
             for hash_list in existing_history.hash_lists:
+                if hash_list.process_info.root_media_hash is None:
+                    continue
                 root_hash_entries = hash_list.process_info.root_media_hash.hash_entries
                 if len(root_hash_entries) > 0:
                     for root_hash_entry in root_hash_entries:
